@@ -61,7 +61,9 @@ Step == /\ l > 0 /\ l <= Len(Traces[tid].steps)
                real == { x \in f : x # "UNJUDGED_Cycle" } IN
            /\ (real # {} => PrintT("V|" \o tr.id \o "|FAIL|" \o JoinSet({ x \o "@" \o ToString(l) : x \in real })))
            /\ nf' = nf + (IF real = {} THEN 0 ELSE 1)
-           /\ trel' = AsRel(s.attrs)                    \* resynchronise on what the implementation shows
+           \* resynchronise on what the implementation shows - except after a REJECTED declaration: by C10 it changed nothing, so
+           \* the specification's state stands (a flag smuggled in by a rejected call must not explain a later assembly, C20)
+           /\ trel' = IF s.call # "assemble" /\ s.t = "raise" THEN trel ELSE AsRel(s.attrs)
            /\ tpts' = IF s.call = "assemble" /\ s.t = "ok"
                       THEN Append(tpts, [elements |-> s.elements, selfLocking |-> s.selfLocking]) ELSE tpts
         /\ l' = l + 1 /\ UNCHANGED tid
